@@ -446,7 +446,8 @@ fn main() {
 	let arith: Vec<V> = alpha::v_arith();
 	for kind in MA_KINDS {
 		let min = ma_min_len(kind);
-		let maxn = ma_max_len(kind, pmax);
+		// (the length PeriodType::MAX itself where the constructor takes it: the recursive kinds do)
+		let maxn = { let m = ma_max_len(kind, pmax); if m == 254 && mk(kind, 255, 1.0).is_some() { 255 } else { m } };
 		let small: Vec<usize> = (min..=5).collect();
 		// affine + range, every sequence to a depth
 		h.go(&AffSys { name: format!("{kind}/affine+range/depth-arith"), kind, ns: small.clone(), v0s: vec![1.0, -3.0], alphabet: arith[..4].to_vec(), flat: false }, &Limits::depth(if thorough { 6 } else { 5 }).wall_secs(300), true);
